@@ -1176,3 +1176,408 @@ PROPS["C08"] = {
     "explanation": "theorems: checkRanges_iff / validate_ranges_iff (validator <-> well-chained), resolveRange_eq, built_ranges, ranges_lines (reported ranges = declarative resolution for every accepted line history), not_chained_rejected, resolved_range_text (n@start, re-parses to itself), map_range_verbatim; oracle: independent Python spec per generated sequence + scan of the written text + re-parse comparison",
     "assumptions": ["sums beyond 2^64-1 are outside the property's domain (the code saturates there); such generated cases are only checked for absence of panics"],
 }
+
+
+# ------------------------------------------------------------------------------------------
+# C09
+
+NS = 10**9
+DUR_MAX = U64 * NS + 999999999
+
+
+def c09_rule(dur_ns, target_ns, excess_ns):
+    rounded = min((dur_ns + 500000000) // NS, U64)
+    mx = target_ns if excess_ns is None else min(target_ns + excess_ns, DUR_MAX)
+    return rounded * NS <= mx
+
+
+def dec9(ns):
+    return "%d.%09d" % (ns // NS, ns % NS)
+
+
+def c09_build(ctx):
+    rng = ctx.rng
+    cases = []
+    targets = [0, 1, 2, 10, 5220, 2**24, 2**25 + 1, 2**32, 2**53, U64 - 1, U64]
+    allow = [None, 0, 1, 2]
+    deltas = [-500000001, -500000000, -499999999, -1, 0, 1, 499999998, 499999999, 500000000, 500000001, 999999999, NS, NS + 499999999, NS + 500000000]
+    for t in targets:
+        for e in allow:
+            bound = t + (e or 0)
+            for d in deltas:
+                dur = bound * NS + d
+                if dur < 0:
+                    continue
+                if dur // NS <= U64:
+                    script = "td %d\n" % (t * NS) + ("ex %d\n" % (e * NS) if e is not None else "") + "push dur=%d uri=61" % dur
+                    cases.append(mk("build_media", script, group="builder-boundary", meta={"dur": dur, "t": t * NS, "e": None if e is None else e * NS}))
+                # text path: decimal literal with 9 fractional digits, exact below 2^23 s
+                if dur < 2**23 * NS:
+                    text = "#EXTM3U\n#EXT-X-TARGETDURATION:%d\n#EXTINF:%s,\na.ts\n" % (t, dec9(dur))
+                    cases.append(mk("media_builder", text, "-" if e is None else str(e * NS), group="text-boundary", meta={"dur": dur, "t": t * NS, "e": None if e is None else e * NS}))
+    # sub-second allowances and targets through the builder
+    for _ in range(ctx.n(3000, 60000)):
+        t = rng.choice([0, 1, 10, 2**24, 2**32, rng.randint(0, 10**6)]) * NS + rng.choice([0, 0, 1, 499999999, 500000000])
+        e = rng.choice([None, 0, 1, 500000000, 999999999, NS, rng.randint(0, 3 * NS)])
+        bound = (t + (e or 0)) // NS
+        dur = max(0, bound * NS + rng.choice(deltas) + rng.choice([0, 0, NS, -NS]))
+        script = "td %d\n" % t + ("ex %d\n" % e if e is not None else "") + "push dur=%d uri=61\npush dur=%d uri=62" % (rng.randint(0, NS), dur)
+        cases.append(mk("build_media", script, group="builder-random", meta={"dur": dur, "t": t, "e": e}))
+    # several segments, one of them at a boundary, through text
+    for _ in range(ctx.n(1500, 30000)):
+        t = rng.choice([1, 2, 10, 30])
+        e = rng.choice([None, None, 0, 1])
+        bound = t + (e or 0)
+        durs = [rng.randint(0, bound * NS + 499999999) for _ in range(rng.randint(1, 5))]
+        durs[rng.randrange(len(durs))] = bound * NS + rng.choice(deltas[:11])
+        text = "#EXTM3U\n#EXT-X-TARGETDURATION:%d\n" % t + "".join("#EXTINF:%s,\ns%d.ts\n" % (dec9(max(0, d)), i) for i, d in enumerate(durs))
+        cases.append(mk("media_builder", text, "-" if e is None else str(e * NS), group="text-multi", meta={"durs": [max(0, d) for d in durs], "t": t * NS, "e": None if e is None else e * NS}))
+    return cases
+
+
+def c09_oracle(ctx, cases, impl, model):
+    fails = []
+    for c, a in zip(cases, impl):
+        r = C.Resp(a)
+        if r.status == "panic":
+            fails.append(dict(describe(c.line, a), what="panicked", law="no-panic")); continue
+        if r.status == "bad-op":
+            continue
+        durs = c.meta.get("durs") or [c.meta["dur"]]
+        if c.group == "builder-random":
+            durs = None
+        t, e = c.meta["t"], c.meta["e"]
+        if durs is not None:
+            exp = all(c09_rule(d, t, e) for d in durs)
+            if exp != (r.status == "ok"):
+                fails.append(dict(describe(c.line, a), what="target-duration rule: durations %s ns, target %d ns, allowance %s: expected %s, implementation %s" % (durs, t, e, "accept" if exp else "reject", r.status), law="accept-iff-rule")); continue
+        if r.status == "ok":
+            m = Media(r.obs)
+            for s in m.segments:
+                if not c09_rule(s.duration, m.target, m.excess if e is not None else None):
+                    fails.append(dict(describe(c.line, a), what="an accepted playlist contains a segment of %d ns with target %d ns, allowance %d ns" % (s.duration, m.target, m.excess), law="ok-implies-rule")); break
+    return fails
+
+
+def c09_canon(raw, keys):
+    r = C.Resp(raw)
+    if r.status != "ok":
+        return r.status
+    m = Media(r.obs)
+    return "ok %d %d %s" % (m.target, m.excess, [s.duration for s in m.segments])
+
+
+PROPS["C09"] = {
+    "build": c09_build, "gate": {"status"}, "canon": c09_canon, "oracle": c09_oracle,
+    "nontrivial": lambda c, a: a.split(" ")[0] in ("ok", "err"),
+    "rule": "targets {0,1,2,10,5220,2^24,2^25+1,2^32,2^53,2^64-2,2^64-1} s x allowances {none,0,1,2} s x durations at (target+allowance) s + delta, delta in {-0.500000001 .. +1.5} s in 1 ns steps around every rounding boundary, through the builder (exact Duration) and through text (9-digit literals, below 2^23 s) with the allowance configured on the parsing builder; random sub-second targets/allowances; multi-segment texts with one boundary segment; non-trivial = every case (each decides acceptance)",
+    "explanation": "theorems: roundedSecs_spec (nearest second, halves up, integer arithmetic), validateSegments_iff (validator = exactly the three rules), accepted_durations (no accepted line history contains a longer segment), too_long_rejected (a parsed segment breaking the rule rejects the playlist), rule_whole_seconds; oracle: independent integer formula on the generated durations for acceptance, and on every reported duration of every accepted value",
+    "assumptions": ["text durations are exact below 2^23 s with <= 9 fractional digits (float emulation validated by the correspondence run); larger magnitudes are exercised through the builder"],
+}
+
+
+# ------------------------------------------------------------------------------------------
+# C15
+
+C15_LINES = [
+    ("TD", "#EXT-X-TARGETDURATION:10"), ("INF", "#EXTINF:1,"), ("URI", "seg.ts"), ("BR", "#EXT-X-BYTERANGE:10@0"),
+    ("DISC", "#EXT-X-DISCONTINUITY"), ("KEY", '#EXT-X-KEY:METHOD=AES-128,URI="k"'), ("MAP", '#EXT-X-MAP:URI="m"'),
+    ("PDT", "#EXT-X-PROGRAM-DATE-TIME:2010-02-19T14:54:23.031+08:00"), ("DR", '#EXT-X-DATERANGE:ID="a"'),
+    ("MS", "#EXT-X-MEDIA-SEQUENCE:1"), ("DS", "#EXT-X-DISCONTINUITY-SEQUENCE:1"), ("END", "#EXT-X-ENDLIST"),
+    ("PT", "#EXT-X-PLAYLIST-TYPE:VOD"), ("IFO", "#EXT-X-I-FRAMES-ONLY"),
+    ("MEDIA", '#EXT-X-MEDIA:TYPE=AUDIO,GROUP-ID="g",NAME="n"'), ("SI", "#EXT-X-STREAM-INF:BANDWIDTH=1"),
+    ("IFSI", '#EXT-X-I-FRAME-STREAM-INF:BANDWIDTH=1,URI="i"'), ("SD", '#EXT-X-SESSION-DATA:DATA-ID="d",VALUE="v"'),
+    ("SK", '#EXT-X-SESSION-KEY:METHOD=AES-128,URI="k"'), ("IND", "#EXT-X-INDEPENDENT-SEGMENTS"),
+    ("START", "#EXT-X-START:TIME-OFFSET=1"), ("VER", "#EXT-X-VERSION:3"), ("UNK", "#EXT-X-CUSTOM:1"), ("COM", "# comment"),
+]
+MEDIA_KINDS = {"TD", "INF", "BR", "DISC", "KEY", "MAP", "PDT", "DR", "MS", "DS", "END", "PT", "IFO"}
+MASTER_KINDS = {"MEDIA", "SI", "IFSI", "SD", "SK"}
+
+
+def c15_items(kinds):
+    """item kinds after STREAM-INF pairing; 'DANGLING' if a STREAM-INF has no following line"""
+    out, i = [], 0
+    while i < len(kinds):
+        if kinds[i] == "SI":
+            if i + 1 >= len(kinds):
+                out.append("DANGLING"); break
+            out.append("SI"); i += 2
+        else:
+            out.append(kinds[i]); i += 1
+    return out
+
+
+def c15_build(ctx):
+    cases = []
+    maxlen = ctx.n(3, 4)
+    for n in range(0, maxlen + 1):
+        for combo in itertools.product(C15_LINES, repeat=n):
+            kinds = [k for k, _ in combo]
+            text = "#EXTM3U\n" + "".join(l + "\n" for _, l in combo)
+            for op in ("media", "master"):
+                cases.append(mk(op, text, group="exhaustive<=%d" % maxlen, meta={"kinds": kinds, "header": True}))
+    # headerless variants of the short ones
+    for n in range(0, 3):
+        for combo in itertools.product(C15_LINES, repeat=n):
+            text = "".join(l + "\n" for _, l in combo)
+            for op in ("media", "master"):
+                cases.append(mk(op, text, group="no-header", meta={"kinds": [k for k, _ in combo], "header": False}))
+    rng = ctx.rng
+    for i in range(ctx.n(800, 8000)):
+        t = G.gen_media(rng, features=ctx.features)[0] if i % 2 == 0 else G.gen_master(rng, features=ctx.features)[0]
+        for op in ("media", "master"):
+            cases.append(mk(op, t, group="generated-cross"))
+    for t in corpus_texts():
+        for op in ("media", "master"):
+            cases.append(mk(op, t, group="corpus-cross"))
+    return cases
+
+
+def c15_oracle(ctx, cases, impl, model):
+    fails = []
+    by_text = {}
+    for c, a in zip(cases, impl):
+        st = a.split(" ", 1)[0]
+        if st == "panic":
+            fails.append(dict(describe(c.line, a), what="parser panicked", law="no-panic")); continue
+        by_text.setdefault(c.line.split("\t")[1], {})[c.op] = (c, a, st)
+        kinds = c.meta.get("kinds")
+        if kinds is None:
+            continue
+        items = c15_items(kinds)
+        if c.op == "master":
+            must_reject = (not c.meta["header"]) or "DANGLING" in items or any(k in MEDIA_KINDS or k == "URI" for k in items)
+            if must_reject and st == "ok":
+                fails.append(dict(describe(c.line, a), what="master parser accepted a text with items %s (media tag, bare URI, dangling STREAM-INF or missing header)" % items, law="master-rejects"))
+        else:
+            must_reject = (not c.meta["header"]) or "DANGLING" in items or any(k in MASTER_KINDS for k in items) or "TD" not in items
+            if must_reject and st == "ok":
+                fails.append(dict(describe(c.line, a), what="media parser accepted a text with items %s (master tag, missing TARGETDURATION, dangling STREAM-INF or missing header)" % items, law="media-rejects"))
+    for h, d in by_text.items():
+        if len(d) == 2 and d["media"][2] == "ok" and d["master"][2] == "ok":
+            c, a, _ = d["media"]
+            fails.append(dict(describe(c.line, a), what="a text is accepted both as a master and as a media playlist", law="never-both"))
+    return fails
+
+
+PROPS["C15"] = {
+    "build": c15_build, "gate": {"status"}, "oracle": c15_oracle,
+    "nontrivial": lambda c, a: len(c.meta.get("kinds", [1])) >= 1,
+    "rule": "every sequence of up to 3 (thorough 4) lines drawn from one representative line per tag kind (24 representatives incl. URI, comment, unknown tag, EXT-X-VERSION) behind the #EXTM3U header, fed to BOTH parsers; all sequences up to length 2 without the header; generated media and master playlists and the repository fixtures fed to the other parser; non-trivial = non-empty sequence",
+    "exhaustive": True,
+    "explanation": "theorems: never_both (for every string), master_rejects_media_tags, media_rejects_master_tags, header_required, media_has_target_duration, masterStep_err_iff / mediaStep_foreign + tables_match over the tables regenerated from the UnexpectedTag arms, streaminf_pairs, streaminf_trailing; oracle: Python computes the item kinds (STREAM-INF pairing) and the property's rejection rules",
+    "assumptions": ["a builder pre-configured with a target duration (MediaPlaylistBuilder::parse) can accept a text without EXT-X-TARGETDURATION; the property concerns the TryFrom/FromStr entry points"],
+}
+
+
+# ------------------------------------------------------------------------------------------
+# C16
+
+class LiveSeg:
+    def __init__(self, rng, i):
+        self.uri = rng.choice(["a.ts", "b.ts", "c%d.ts" % i])
+        self.dur = rng.choice(["1", "2.5", "9.009", "10"])
+        self.keys = []          # key events before this segment
+        for _ in range(rng.choice([0, 0, 0, 1, 1, 2])):
+            if rng.random() < 0.15:
+                self.keys.append(None)
+            else:
+                fmt = rng.choice([None, None, "identity", "f2", "com.apple.streamingkeydelivery"])
+                iv = ("%032x" % rng.getrandbits(128)) if rng.random() < 0.3 else None
+                self.keys.append((rng.choice(["AES-128", "AES-128", "SAMPLE-AES"]), rng.choice(["k1", "k2"]), iv, fmt))
+        self.range = rng.choice(["N", "N", "E", "I"])
+        self.len = rng.randint(1, 1000)
+        self.off = rng.randint(0, 10**6)
+        self.disc = rng.random() < 0.1
+
+
+def key_line(k):
+    if k is None:
+        return "#EXT-X-KEY:METHOD=NONE"
+    method, uri, iv, fmt = k
+    l = '#EXT-X-KEY:METHOD=%s,URI="%s"' % (method, uri)
+    if iv:
+        l += ",IV=0x" + iv
+    if fmt is not None:
+        l += ',KEYFORMAT="%s"' % fmt
+    return l
+
+
+NF = {"identity": "identity", None: "identity", "f2": "other:f2", "com.apple.streamingkeydelivery": "kfF"}
+
+
+def live_history(rng, n):
+    """segments + per segment the full-history expectation: keys in effect (as restatable list), resolved range"""
+    segs = []
+    cur, marker = {}, False
+    prev = None
+    for i in range(n):
+        s = LiveSeg(rng, i)
+        for k in s.keys:
+            if k is None:
+                cur, marker = {}, True
+            else:
+                if marker:
+                    cur, marker = {}, False
+                cur = dict(cur); cur[NF[k[3]]] = k
+        s.in_effect = None if marker else list(cur.values())
+        if s.range == "I" and (prev is None or prev.resolved is None or prev.uri != s.uri):
+            s.range = "E"
+        if s.range == "N":
+            s.resolved = None
+        elif s.range == "E":
+            s.resolved = (s.off, s.off + s.len)
+        else:
+            s.resolved = (prev.resolved[1], prev.resolved[1] + s.len)
+        prev = s
+        segs.append(s)
+    return segs
+
+
+def live_render(segs, base, k, n, end=False):
+    """the server's playlist for the window [k, n): media sequence base+k, tags in effect restated"""
+    lines = ["#EXTM3U", "#EXT-X-TARGETDURATION:10", "#EXT-X-MEDIA-SEQUENCE:%d" % (base + k)]
+    for i in range(k, n):
+        s = segs[i]
+        if i == k:
+            # restate what is in effect at the first segment of the window
+            if s.in_effect is None:
+                lines.append(key_line(None))
+            else:
+                lines += [key_line(x) for x in s.in_effect]
+            if s.resolved is not None:
+                lines.append("#EXT-X-BYTERANGE:%d@%d" % (s.resolved[1] - s.resolved[0], s.resolved[0]))
+        else:
+            lines += [key_line(x) for x in s.keys]
+            if s.range == "E":
+                lines.append("#EXT-X-BYTERANGE:%d@%d" % (s.len, s.off))
+            elif s.range == "I":
+                lines.append("#EXT-X-BYTERANGE:%d" % s.len)
+        if s.disc:
+            lines.append("#EXT-X-DISCONTINUITY")
+        lines += ["#EXTINF:%s," % s.dur, s.uri]
+    if end:
+        lines.append("#EXT-X-ENDLIST")
+    return "\n".join(lines) + "\n"
+
+
+def seg_identity(s):
+    """what C16 says must be stable: number, URI, byte range, key set with effective IVs"""
+    ks = sorted((repr(key_ident(k)), iv_of(k)) if k != "K0" else ("K0",) for k in s.keys)
+    return (s.number, s.uri, s.byte_range, tuple(ks))
+
+
+SEGMENT_TAG_PREFIXES = ("#EXTINF", "#EXT-X-BYTERANGE", "#EXT-X-DISCONTINUITY", "#EXT-X-KEY", "#EXT-X-MAP", "#EXT-X-PROGRAM-DATE-TIME", "#EXT-X-DATERANGE")
+
+
+def c16_build(ctx):
+    rng = ctx.rng
+    cases = []
+    nplay = ctx.n(300, 3000)
+    for pi in range(nplay):
+        n = rng.randint(2, 7)
+        base = rng.choice([0, 1, 2680, 2**32, U64 - 20])
+        segs = live_history(rng, n)
+        gid = "live%d" % pi
+        # every window [k, m): slide and append chains
+        for k in range(0, n):
+            for m in range(k + 1, n + 1):
+                cases.append(mk("media", live_render(segs, base, k, m), group="window", meta={"live": gid, "k": k, "m": m, "base": base}))
+    # every line-boundary cut of generated playlists
+    for pi in range(ctx.n(300, 3000)):
+        text = G.gen_media(rng, max_segments=5, features=ctx.features)[0]
+        lines = text.split("\n")
+        gid = "cut%d" % pi
+        cases.append(mk("media", text, group="cut-full", meta={"cut": gid, "at": None}))
+        for i in range(1, len(lines)):
+            cases.append(mk("media", "\n".join(lines[:i]) + "\n", group="cut", meta={"cut": gid, "at": i, "last": lines[i - 1].strip()}))
+    # master playlists cut after a STREAM-INF
+    for pi in range(ctx.n(100, 1000)):
+        text = G.gen_master(rng, features=ctx.features)[0]
+        lines = text.split("\n")
+        for i in range(1, len(lines)):
+            if lines[i - 1].strip().startswith("#EXT-X-STREAM-INF:"):
+                cases.append(mk("master", "\n".join(lines[:i]) + "\n", group="cut-master", meta={"dangling": True}))
+                cases.append(mk("media", "#EXTM3U\n#EXT-X-TARGETDURATION:10\n" + lines[i - 1] + "\n", group="cut-master", meta={"dangling": True}))
+    return cases
+
+
+def c16_oracle(ctx, cases, impl, model):
+    fails = []
+    windows, cuts = {}, {}
+    for c, a in zip(cases, impl):
+        r = C.Resp(a)
+        if r.status == "panic":
+            fails.append(dict(describe(c.line, a), what="parser panicked", law="no-panic")); continue
+        if c.meta.get("dangling"):
+            if r.status == "ok":
+                fails.append(dict(describe(c.line, a), what="a text cut right after EXT-X-STREAM-INF was accepted (the variant is silently dropped)", law="dangling-stream-inf"))
+            continue
+        if "live" in c.meta:
+            windows.setdefault(c.meta["live"], []).append((c, a, r))
+        elif "cut" in c.meta:
+            cuts.setdefault(c.meta["cut"], []).append((c, a, r))
+    for gid, ws in windows.items():
+        # identity of segment index i (in the full history) as reported by each window
+        seen = {}
+        for c, a, r in ws:
+            if r.status != "ok":
+                fails.append(dict(describe(c.line, a), what="a window [%d,%d) of a valid live playlist was rejected" % (c.meta["k"], c.meta["m"]), law="window-accepted")); break
+            m = Media(r.obs)
+            if len(m.segments) != c.meta["m"] - c.meta["k"]:
+                fails.append(dict(describe(c.line, a), what="window [%d,%d) reports %d segments" % (c.meta["k"], c.meta["m"], len(m.segments)), law="window-count")); break
+            bad = False
+            for j, s in enumerate(m.segments):
+                i = c.meta["k"] + j
+                ident = seg_identity(s)
+                if ident[0] != c.meta["base"] + i:
+                    fails.append(dict(describe(c.line, a), what="segment %d of the history is numbered %d in window [%d,%d), expected %d" % (i, ident[0], c.meta["k"], c.meta["m"], c.meta["base"] + i), law="slide-number")); bad = True; break
+                if i in seen and seen[i][0] != ident:
+                    d = describe(c.line, a)
+                    d["context_lines"] = [seen[i][1].line]
+                    fails.append(dict(d, what="segment %d of the history changes identity between windows: %s vs %s" % (i, seen[i][0], ident), law="slide-identity")); bad = True; break
+                seen.setdefault(i, (ident, c))
+            if bad:
+                break
+    for gid, cs in cuts.items():
+        full = [x for x in cs if x[0].meta["at"] is None]
+        if not full or full[0][2].status != "ok":
+            continue
+        fsegs = [s.node for s in Media(full[0][2].obs).segments]
+        fobs = [repr(x) for x in fsegs]
+        for c, a, r in cs:
+            if c.meta["at"] is None:
+                continue
+            last = c.meta["last"]
+            if r.status == "ok":
+                if last.startswith(SEGMENT_TAG_PREFIXES) and not last.startswith("#EXT-X-DISCONTINUITY-SEQUENCE"):
+                    fails.append(dict(describe(c.line, a), what="a text cut right after the segment tag %r was accepted" % last[:40], law="cut-inside-item")); continue
+                segs = [repr(s.node) for s in Media(r.obs).segments]
+                if segs != fobs[:len(segs)]:
+                    # a MEDIA-SEQUENCE line behind the cut legitimately renumbers: compare only then
+                    tail = "\n".join(full[0][0].payload.split("\n")[c.meta["at"]:])
+                    if "#EXT-X-MEDIA-SEQUENCE" in tail:
+                        continue
+                    d = describe(c.line, a)
+                    d["context_lines"] = [full[0][0].line]
+                    fails.append(dict(d, what="the segments of a text cut at line %d are not a prefix of the segments of the full text" % c.meta["at"], law="cut-prefix"))
+    return fails
+
+
+def c16_canon(raw, keys):
+    r = C.Resp(raw)
+    if r.status != "ok":
+        return r.status
+    if not r.obs.startswith("M{"):
+        return "ok"
+    m = Media(r.obs)
+    return "ok " + ";".join(repr(seg_identity(s)) for s in m.segments)
+
+
+PROPS["C16"] = {
+    "build": c16_build, "gate": {"status"}, "canon": c16_canon, "oracle": c16_oracle,
+    "nontrivial": lambda c, a: a.startswith("ok") and ("live" in c.meta or "cut" in c.meta),
+    "rule": "live histories of 2-7 segments (key events over 4 formats incl. NONE and explicit IVs, byte ranges none/explicit/implicit, media sequences up to 2^64-21): EVERY window [k,m) is rendered the way a server would (media sequence + k, keys in effect and the first byte range restated) - this covers append (m grows), slide (k grows) and every chain of both; generated playlists cut at EVERY line boundary; master playlists and media texts cut right after EXT-X-STREAM-INF; non-trivial = accepted window or cut",
+    "explanation": "theorems: append_stable (segments of an accepted history are a prefix of those of any accepted extension without a new MEDIA-SEQUENCE), built_prefix, built_functional, cut_inside_item_rejected, trailing_error_item_rejected, built_shift / built_drop / built_prev_irrelevant / slide_stable (dropping k segments and raising the media sequence by k leaves numbers, URIs, ranges, keys, IVs of the rest unchanged); oracle: per history, the identity (number, URI, resolved range, key set with effective IVs) of each segment must be the same in every window that contains it; per cut, rejected or prefix",
+    "assumptions": ["an appended or cut-away EXT-X-MEDIA-SEQUENCE line legitimately renumbers (the last one wins): excluded as in the theorem's hypothesis", "EXT-X-MAP is attached to the next segment only (library design) and is not part of the slide oracle"],
+}
